@@ -37,6 +37,7 @@ type PJSpell struct {
 	Unknowns bool // unknown members (scalar/object/array) inside message objects
 	Shuffle  bool // members in random order (else field-number order as Range yields)
 	Names    int  // 0 JSON name, 1 proto name, 2 random per member
+	Empties  bool // [] / {} for some absent repeated / map fields (the empty list and map are the absent ones)
 }
 
 type pjw struct {
@@ -44,6 +45,7 @@ type pjw struct {
 	ps       PJSpell
 	unknowns int
 	nulls    int
+	empties  int
 	unkSeq   int
 }
 
@@ -123,13 +125,21 @@ func (w *pjw) msg(m protoreflect.Message, depth int) {
 			}
 		}
 	}
+	if w.ps.Empties {
+		for i := 0; i < fds.Len(); i++ {
+			if fd := fds.Get(i); (fd.IsList() || fd.IsMap()) && !m.Has(fd) && w.r.Chance(40) {
+				ms = append(ms, mem{fd, protoreflect.Value{}, 3})
+				w.empties++
+			}
+		}
+	}
 	if w.ps.Unknowns {
 		for n := w.r.Intn(3); n > 0; n-- {
 			ms = append(ms, mem{nil, protoreflect.Value{}, 2})
 			w.unknowns++
 		}
 	}
-	if w.ps.Shuffle || w.ps.Nulls || w.ps.Unknowns {
+	if w.ps.Shuffle || w.ps.Nulls || w.ps.Unknowns || w.ps.Empties {
 		for i := len(ms) - 1; i > 0; i-- {
 			j := w.r.Intn(i + 1)
 			ms[i], ms[j] = ms[j], ms[i]
@@ -148,6 +158,21 @@ func (w *pjw) msg(m protoreflect.Message, depth int) {
 			w.sb.WriteByte(':')
 			w.ws()
 			w.sb.WriteString("null")
+			continue
+		case 3:
+			w.key(e.fd)
+			w.ws()
+			w.sb.WriteByte(':')
+			w.ws()
+			if e.fd.IsMap() {
+				w.sb.WriteString("{")
+				w.ws()
+				w.sb.WriteString("}")
+			} else {
+				w.sb.WriteString("[")
+				w.ws()
+				w.sb.WriteString("]")
+			}
 			continue
 		case 2:
 			w.unkSeq++
@@ -671,7 +696,7 @@ func c09Messages(cs *h.Case, huge bool) {
 		}
 		desc := svc.LookupMethodByName("M").Input()
 		m := PGenMsg(cs.R, pc.Root, PValCfg{MaxElems: 5, MaxDepth: 3}, 0)
-		ps := PJSpell{WS: cs.R.Intn(3), Escape: cs.R.Bool(), NumExp: cs.R.Bool(), Nulls: cs.R.Chance(25), Unknowns: cs.R.Chance(30), Shuffle: cs.R.Bool(), Names: cs.R.Intn(3)}
+		ps := PJSpell{WS: cs.R.Intn(3), Escape: cs.R.Bool(), NumExp: cs.R.Bool(), Nulls: cs.R.Chance(25), Unknowns: cs.R.Chance(30), Shuffle: cs.R.Bool(), Names: cs.R.Intn(3), Empties: cs.R.Chance(25)}
 		doc, w := PRenderJSON(cs.R, m, ps)
 		cs.Info("message", trunc(fmt.Sprint(m)))
 		cs.Info("spell", fmt.Sprintf("%+v", ps))
@@ -690,6 +715,11 @@ func c09Messages(cs *h.Case, huge bool) {
 			kind = "null-members"
 		} else if w.unknowns > 0 {
 			kind = "unknown-members"
+		} else if w.empties > 0 {
+			kind = "empty-containers"
+		}
+		if w.empties > 0 {
+			cs.Cover("j2p_docs_with_empty_containers")
 		}
 		if c09Check(cs, desc, pc.Root, doc, m, o, kind) {
 			cs.Cover("j2p_ok")
